@@ -36,6 +36,15 @@ def program(g, i):
     cfg = {p: any(t in NEEDS_CFG and q == p for t, q in fields) for p in params}
     namedp = {p: any(t in NAMED and q == p for t, q in fields) for p in params}
     ftxt = [tmpl(t, p, selfty) for t, p in fields]
+    split = "splitattr" in M
+    vattr = {}
+    if split:      # the skip attribute is the second of two #[codec(..)] attributes on the item
+        for k, x in enumerate(ftxt):
+            if x.startswith("#[codec(skip)] "):
+                if "enum" in M:
+                    vattr[k] = "#[codec(index = %d)] #[codec(skip)] " % (40 + k); ftxt[k] = x[len("#[codec(skip)] "):]
+                else:
+                    ftxt[k] = '#[codec(encoded_as = "u32")] ' + x
     if lts: ftxt.append("&'a %s" % ("u8" if params[0] in skip else params[0]))
     if len(lts) == 2: ftxt.append("&'b u16")
     if constp: ftxt.append("[u8; N]")
@@ -65,7 +74,7 @@ def program(g, i):
     gtxt = "<" + ", ".join(gdecl) + ">"
     w = (" where " + ", ".join(wh)) if wh else ""
     if "enum" in M:
-        body = "pub enum %s%s%s { %s }" % (name, gtxt, w, ", ".join("V%d(%s)" % (k, x) for k, x in enumerate(ftxt)))
+        body = "pub enum %s%s%s { %s }" % (name, gtxt, w, ", ".join("%sV%d(%s)" % (vattr.get(k, ""), k, x) for k, x in enumerate(ftxt)))
     elif "tuple" in M:
         body = "pub struct %s%s(%s)%s;" % (name, gtxt, ", ".join(ftxt), w)
     else:
